@@ -48,12 +48,12 @@ PLAN = {
         "harnesses": [
             # the three history classes first: they are the long-running ones (about 3 min each)
             H("c01_scopes_nested", "every program whose scopes end innermost-first (closures, guards, nesting, global install): I (LOCAL None or a recorder whose installing borrow is alive) and exact dispatch to the innermost live recorder after every step / at every emit",
-              kind="bounded", bound=BOUND4, covers=2, timeout=1500),
+              kind="bounded", bound=BOUND4, covers=3, timeout=1500),
             H("c01_guard_fifo_drop", "programs where a guard/closure scope ends while not innermost (e.g. guard A, guard B, drop A, drop B): I and exact dispatch from that point on -- FAILS on the pinned tree: finding 1 in FINDINGS.md",
               kind="bounded", bound=BOUND4, timeout=1500),
             H("c01_guard_forget", "programs containing mem::forget(guard): I and exact dispatch from that point on -- FAILS on the pinned tree: finding 2 in FINDINGS.md",
               kind="bounded", bound=BOUND4, timeout=1500),
-            H("c01_scopes_nested5", "as c01_scopes_nested with <= 5 steps", kind="bounded", bound=BOUND5, covers=2, timeout=3000, tier="thorough"),
+            H("c01_scopes_nested5", "as c01_scopes_nested with <= 5 steps", kind="bounded", bound=BOUND5, covers=3, timeout=3000, tier="thorough"),
             H("c01_guard_new", "LocalRecorderGuard::new(r) ensures LOCAL == Some(r) and guard.prev_recorder == old(LOCAL), for LOCAL in {None, A, B}; nothing emitted", covers=2),
             H("c01_guard_drop", "Drop ensures LOCAL == old(self.prev_recorder) for every (prev, LOCAL) in {None,A,B} x {None,A,B,C}", covers=2),
             H("c01_set_default_local_recorder", "guard alive: LOCAL == r and each emission reaches r once; after drop: LOCAL == old(LOCAL) and emissions reach the previous recorder"),
